@@ -364,6 +364,9 @@ def replay_capture_protocol(d, path, pid):
     return 0
 
 
+KEPT = []
+
+
 def import_cases(ctx):
     from xdoctest.utils import util_import
     from xdoctest import doctest_example
@@ -448,7 +451,7 @@ def import_cases(ctx):
                         so = sys.stdout
                         ex.run(on_error='return', verbose=0)
                 except BaseException as e:      # noqa
-                    pass
+                    KEPT.append(e)     # a caller that records the outcome keeps the exception (and its frames) alive
                 after = snapshot()
                 if sorted(after['path']) != sorted(before['path']):
                     ctx.violation('import-restores', {'what': 'DocTest.run pre-import of module %s left sys.path changed: added %r' % (
